@@ -43,12 +43,16 @@ static inline vr64 vr_floor64(vr64 a){ return vs_un(6,64,a); }
 static inline vr32 vr_sqrt32(vr32 a){ return (vr32)vs_un(3,32,a); }
 static inline vr32 vr_fabs32(vr32 a){ return (vr32)vs_un(4,32,a); }
 
+int vs_is_zero(vr64 a);
+static inline int vr_is_exact_zero(vr64 a){ return vs_is_zero(a); }
 /* ---- harness API */
 void vs_reset(int uf_mode);                               /* start a new case; uf_mode: FP operations are uninterpreted symbols */
 vr64 vs_var(const char* name);                            /* fresh real variable, not comparable */
 vr64 vs_var_wild(const char* name);                       /* same, standing for memory the library leaves undefined (padding) */
 #define VS_NOBOUND 0xffffffffu
 vr64 vs_var_between(const char* name, vr64 lo, vr64 hi);  /* variable with lo < v < hi (lo/hi constants or ranked vars, VS_NOBOUND = unbounded) */
+vr64 vs_var_ge0(const char* name);                        /* variable assumed >= 0 (not comparable) */
+vr64 vs_var_nonzero(const char* name);                    /* variable known to be != 0 (comparable with the constant 0 for ==/!= only) */
 vr64 vs_var_ranked(const char* name, int rank);           /* variable ordered by rank against other ranked variables */
 vr64 vs_q(long num, long den);                            /* exact rational constant */
 vr64 vs_qstr(const char* s);                              /* "p/q" or decimal */
@@ -59,6 +63,7 @@ vr64 vs_subst(vr64 t, vr64 var, vr64 value);              /* t with var replaced
 vr64 vs_diff(vr64 t, vr64 var);                           /* symbolic derivative d t / d var (real mode) */
 void vs_assume_text(const char* smt);                     /* extra assertion (SMT-LIB over declared names) for all later queries */
 void vs_prove_eq(vr64 a, vr64 b, const char* label);      /* emit obligation a == b */
+void vs_prove_nonneg(vr64 a, const char* label);          /* emit obligation a >= 0 under the declared assumptions */
 void vs_prove_nonzero_divisors(const char* label);        /* emit obligations: every symbolic divisor built so far is != 0 */
 void vs_note(const char* key, const char* value);         /* goes to the manifest */
 void vs_error(const char* msg);                           /* abort this case as unsupported/insufficient */
